@@ -203,12 +203,13 @@ Fixpoint lists_ok (its : list item) (sh : list Z) : bool :=
   end.
 Definition g_is_arr (g : gsel) : bool := match g with GAdv _ => true | _ => false end.
 Definition g_is_adv (g : gsel) : bool := match g with GAdv _ | GInt _ => true | _ => false end.
-(* are the advanced items (ints included) next to each other?  state 0: before, 1: inside, 2: after *)
-Fixpoint adjacent_from (st : Z) (gs : list gsel) : bool :=
-  match gs with
+(* are the advanced items (ints included) next to each other in the index as written?  A slice, a newaxis or an
+   Ellipsis (even one that stands for no axis at all) between them separates them.  state 0: before, 1: inside, 2: after *)
+Fixpoint adjacent_items (st : Z) (its : list item) : bool :=
+  match its with
   | [] => true
-  | g :: t => if g_is_adv g then (if st =? 2 then false else adjacent_from 1 t)
-              else adjacent_from (if st =? 1 then 2 else st) t
+  | it :: t => if is_int it || is_adv it then (if st =? 2 then false else adjacent_items 1 t)
+               else adjacent_items (if st =? 1 then 2 else st) t
   end.
 Definition adv_lens (gs : list gsel) : list Z :=
   flat_map (fun g => match g with GAdv o => [zlen o] | _ => [] end) gs.
@@ -247,7 +248,7 @@ Definition renest (sh : list Z) (vals : list Z) : npres :=
                                    (chunks (Z.to_nat a) (Z.to_nat (b * c)) vals)))
   | _ => NPBig sh
   end.
-Definition np_general (sh : list Z) (d : nest) (its : list item) : npres :=
+Definition np_general (sh : list Z) (d : nest) (orig its : list item) : npres :=
   match gsels its sh (strides sh) with
   | None => NPErr
   | Some gs =>
@@ -260,7 +261,7 @@ Definition np_general (sh : list Z) (d : nest) (its : list item) : npres :=
       | Some B =>
         if (B =? 0) || lists_ok its sh then
           let grp := group_offs gs B in
-          if adjacent_from 0 gs then go 0 (inplace_gens grp false gs)
+          if adjacent_items 0 orig then go 0 (inplace_gens grp false gs)
           else go 0 (grp :: flat_map basic_gen gs)
         else NPErr
       end
@@ -283,7 +284,7 @@ Definition np_getitem (sh : list Z) (d : nest) (its : list item) : npres :=
         | None => NPErr
         end
       else NPErr
-    else np_general sh d ex
+    else np_general sh d its ex
   end.
 
 (* ------------------------------------------------------------------ psiaudio: normalize_index *)
